@@ -165,7 +165,7 @@ PROPS = {
     },
     "C20": {
         "title": "A failed disk operation is reported and leaves the store consistent",
-        "rules": [k5.e1_no_dropped_result, controls.control("E1"), k5.e2_merge_errors_abort, k2m.p5_merge_outputs_before_unlink, k2.p13_writer_identity_pair, k2.p3_publish_after_append, k2.p1_append_flushes],
+        "rules": [k5.e1_no_dropped_result, controls.control("E1"), k5.e2_merge_errors_abort, k2m.p5_merge_outputs_before_unlink, k2.p13_writer_identity_pair, k2.p3_publish_after_append, k2.p1_append_flushes, k2m.s7_s8_merge_sets],
         "decides": "no storage Result is dropped; no buffered output is left to Drop's error-swallowing flush before unlink/Ok; active_fileid and writer change together or not at all on every error path; the index is touched only on the Ok edge of the append; flush errors of append are propagated",
         "not_decided": "the effect of each errno as behaviour; history-shaped fault defects D11/D12 (DESIGN.md section 6)",
     },
